@@ -14,7 +14,7 @@
   `CoreVM.runToCompletion`; the steps that are not refined (new-action / `Start` / conflict resolution sites, head movement in
   general) are not in the relation.
 -/
-import NemoVerif.Lemmas.LifetimeCoreVM8f
+import NemoVerif.Lemmas.LifetimeCoreVM8g
 namespace NemoVerif.Lifetime.Refine
 open NemoVerif NemoVerif.CoreVM NemoVerif.CoreIndex NemoVerif.Lifetime
 
@@ -41,6 +41,11 @@ inductive RefinedOpStep : VM → VM → Prop
       EvalFrame f spec.args →
       (∀ args vmA, evalArgs f spec.args vm = .ok args vmA → OMap.lookup s!"u{vmA.r.nextUid + 1}z" vm.r.actions = none) →
       (∀ nm, spec.name = some nm → GoodStop nm) → NameRO f (hd.pos + 1) →
+      slideStep fuel f h vm = .ok r vm' → RefinedOpStep vm vm'
+  | send (fuel : Nat) (f : FUid) (h : HUid) (cfg : FlowCfg) (hd : Head) (spec : Spec) (r : Bool × List Key) (vm vm' : VM) :
+      cfgOfInst f vm = .ok cfg vm → getHead? (f, h) vm = .ok (some hd) vm →
+      ¬ (hd.pos ≥ cfg.elements.size ∨ hd.status = .inactive) → cfg.elements[hd.pos]! = .sendOp spec →
+      EventFrame f spec → NameRO f (hd.pos + 1) →
       slideStep fuel f h vm = .ok r vm' → RefinedOpStep vm vm'
   | labelOther (fuel : Nat) (f : FUid) (h : HUid) (cfg : FlowCfg) (hd : Head) (name : String) (r : Bool × List Key) (vm vm' : VM) :
       cfgOfInst f vm = .ok cfg vm → getHead? (f, h) vm = .ok (some hd) vm →
@@ -134,6 +139,9 @@ theorem refinedOpStep_is_op (hν : Function.Injective ν) (hφ : Function.Inject
       intro op hop
       simp only [List.mem_cons, List.mem_singleton, List.not_mem_nil, or_false] at hop
       rcases hop with e | e <;> subst e <;> trivial
+  | send fuel f h cfg hd spec r _ _ hcfg hhd hpos hel hev hro hr =>
+    obtain ⟨ha, w'⟩ := slideStep_send_frame ν φ fuel f h vm vm' cfg hd spec r hcfg hhd hpos hel hw hev hro hr
+    exact ⟨w', [], (by intro op hop; cases hop), by rw [ha]; rfl⟩
   | labelOther fuel f h cfg hd name r _ _ hcfg hhd hpos hel hname hro hr =>
     rw [slideStep_label fuel f h vm cfg hd _ hcfg hhd hpos hel] at hr
     simp only [bind, EStateM.bind] at hr
